@@ -3076,10 +3076,17 @@ package gocql
 
 // strategy selection: SimpleStrategy carries the parsed (non-negative) factor; an unparsable
 // factor or an unsupported class gives no strategy (token-aware routing falls back to the ring owner)
+// Cassandra reports the replication class fully qualified (org.apache.cassandra.locator.SimpleStrategy): the
+// strategy is chosen by searching the class name for the strategy's name anywhere in it, Simple first
 //@ func getStrategy
 //@   props C10
+//@   count_calls Contains
 //@   requires ks != nil && logger != nil
 //@   modifies nothing
+//@   before[C10] Contains: arg0 == ks.StrategyClass && (Contains_calls == 1 ==> arg1 == "SimpleStrategy") && (Contains_calls == 2 ==> arg1 == "NetworkTopologyStrategy")
+//@   ensures[C10] Contains_calls >= 1
+//@   ensures[C10] typeis(result, *simpleStrategy) ==> nth(Contains, 1)
+//@   ensures[C10] typeis(result, *networkTopology) ==> Contains_calls >= 2 && !nth(Contains, 1) && nth(Contains, 2)
 //@   ensures result == nil || typeis(result, *simpleStrategy) || typeis(result, *networkTopology)
 //@   ensures typeis(result, *simpleStrategy) ==> unbox(result, *simpleStrategy) != nil && unbox(result, *simpleStrategy).rf >= 0
 //@   ensures typeis(result, *networkTopology) ==> unbox(result, *networkTopology) != nil && unbox(result, *networkTopology).dcs != nil
@@ -3095,6 +3102,14 @@ package gocql
 //@   modifies nothing
 
 // the ring always has a partitioner (Pick relies on it) and keeps the host list it was built from
+// murmur3 tokens are ordered as signed 64-bit integers (a comparison, not the sign of a difference: tokens can be
+// more than 2^63 apart)
+//@ func (m murmur3Token) Less
+//@   props C10
+//@   requires typeis(token, murmur3Token)
+//@   modifies nothing
+//@   ensures result == (int64(m) < int64(unbox(token, murmur3Token)))
+
 //@ func newTokenRing
 //@   props C10 C11
 //@   requires forall(k, 0 <= k && k < len(hosts), hosts[k] != nil)
